@@ -721,7 +721,7 @@ func fmtValue(fr *frame, v value) value {
 				case uint8:
 					out = append(out, toSstr(strconv.Itoa(int(b)))...)
 				case *sym:
-					out = append(out, materialise(numstr{&sym{e: "((_ zero_extend 8) " + b.e + ")", k: symBV, w: 16, gk: types.Uint16}})...)
+					out = append(out, materialise(numstr{n: &sym{e: "((_ zero_extend 8) " + b.e + ")", k: symBV, w: 16, gk: types.Uint16}})...)
 				}
 			}
 			return append(out, uint8(']'))
@@ -814,7 +814,7 @@ func fmtSpec(spec string, verb byte, arg value) (value, bool) {
 			}
 			return out, true
 		case verb == 'd' && spec == "":
-			return numstr{sy}, true
+			return numstr{n: sy}, true
 		}
 		panic(unsupported(fmt.Sprintf("formatting a symbolic integer with %%%s%c", spec, verb)))
 	}
@@ -1017,7 +1017,11 @@ func extParseFloat(fr *frame, args []value) value {
 		if mm := sextRe.FindStringSubmatch(e); mm != nil {
 			e = mm[1]
 		}
-		return tuple{withOrigin(&sym{e: "((_ to_fp 11 53) RNE " + e + ")", k: symFP}, ns.n), iface{}}
+		f := withOrigin(&sym{e: "((_ to_fp 11 53) RNE " + e + ")", k: symFP}, ns.n)
+		if ns.ow > 0 && ns.ow <= 53 && f.origin == nil {
+			f.origin, f.ow = ns.n, ns.ow
+		}
+		return tuple{f, iface{}}
 	}
 	if fs, ok := args[0].(fpstr); ok {
 		return tuple{fs.f, iface{}}
@@ -1076,7 +1080,7 @@ func extFormatFloat(fr *frame, args []value) value {
 		panic(unsupported("strconv.FormatFloat of a symbolic double in a format other than ('f', -1, 64)"))
 	}
 	if f.origin != nil {
-		return numstr{f.origin} // the text of an exactly converted integer is that integer's decimal text
+		return numstr{n: f.origin, ow: f.ow} // the text of an exactly converted integer is that integer's decimal text
 	}
 	return fpstr{f}
 }
@@ -1271,7 +1275,10 @@ func extSortSlice(fr *frame, args []value) value {
 type nativeObj struct{ v interface{} }
 
 // numstr is the decimal text of a symbolic integer (numeral model); its digits are never materialised.
-type numstr struct{ n *sym }
+type numstr struct {
+	n  *sym
+	ow int // known number of significant bits of n (0 = derive from the term)
+}
 
 func ndInt64(fr *frame, args []value) value {
 	n := fr.i.x.freshVar(args[0].(string), "(_ BitVec 64)")
@@ -1283,7 +1290,7 @@ func ndItoa(fr *frame, args []value) value {
 	case int64:
 		return strconv.FormatInt(n, 10)
 	case *sym:
-		return numstr{n}
+		return numstr{n: n}
 	}
 	panic("Itoa")
 }
